@@ -16,7 +16,7 @@ WT = Path(os.environ.get("SEED_WT", "/tmp/wt-seed"))
 
 
 def sh(cmd, **kw):
-    return subprocess.run(cmd, shell=True, capture_output=True, text=True, **kw)
+    return subprocess.run(cmd, shell=True, capture_output=True, text=True, errors="replace", **kw)
 
 
 def ensure_wt():
